@@ -63,6 +63,7 @@ theorem step_plain {g : Graph} {s s' : St} {l : Label} (hl : l ≠ .main) (hs : 
     repeat' split at hs
     all_goals first
       | (cases hs; exact ⟨Or.inl rfl, rfl⟩)
+      | (cases hs; exact ⟨Or.inr ⟨_, rfl, trivial⟩, rfl⟩)
       | cases hs
 
 /-- after `TasksManager.Wait` has returned, every task of the table has released its latch -/
